@@ -83,7 +83,7 @@ class C05(framework.PropertyCheck):
             'of each other) x a random script of constructs: ~n under in-scope for every scope, #n under in-group, missing references, get by '
             'string, alias / re-alias / unalias (plain, under ~ and # and inside a function body), groups with 1-3 suffixes incl. regex '
             'metacharacters, with and without captured scope, nestings of in-scope / in-group / in-groups / all-scopes / set-scope to depth 4 '
-            'with CS CG LOCAL-SIGNALS LOCAL-SCOPES probed before, inside and after, at a random index; oracle = set comprehension over the '
+            'with CS CG LOCAL-SIGNALS LOCAL-SCOPES probed before, inside and after, at a random index; a quarter of the scripts run after another file with other scopes was loaded, queried and unloaded; oracle = set comprehension over the '
             'generated names; non-trivial = a re-alias, a nesting depth >= 2 or a groups query with a metacharacter suffix')
 
     def cases(self, rng, tier, n):
@@ -98,6 +98,14 @@ class C05(framework.PropertyCheck):
         sigset = set(signals)
         steps = [('loadvcd', 't0', gen_trace.render(vf)), ('eval', 'eorg', f'(step {i})')]
         exps = [('ok',), ('any',)]
+        if case['script'] % 4 == 1:
+            # another file with other scopes has been loaded, asked for its scopes, and unloaded: the names are those of the file that is there now
+            aux = {'header': [['scope', 'module', 'other'], ['var', 'wire', 1, '!', 'clk', None], ['scope', 'module', 'sub'],
+                              ['var', 'wire', 1, '"', 'x_valid', None], ['upscope'], ['upscope']],
+                   'dump': [['time', 0], ['scalar', '1', '!'], ['scalar', '0', '"'], ['time', 5], ['scalar', '0', '!']]}
+            steps = [('loadvcd', 't0', gen_trace.render(aux)), ('eval', 'eorg', '(list SCOPES (in-scope "other.sub" (list CS ~x_valid)) (all-scopes CS))'),
+                     ('unload', 't0')] + steps
+            exps = [('any',), ('any',), ('any',)] + exps
 
         def V(full):
             return ('I', vals[full][i])
@@ -196,10 +204,13 @@ class C05(framework.PropertyCheck):
                             scope = group[:p + 1] if p != -1 else scope
                             text_open += f'(in-group "{group}" '
                         else:
-                            group = r.choice(['top.x_', 'top.a.y_'])
+                            # several groups in turn (the value is the last one's): a group without a scope part leaves the
+                            # scope that was captured before in-groups started, whatever the groups before it captured
+                            gl = r.choice([['top.x_'], ['top.a.y_'], ['top.x_', 'zz'], ['top.a.y_', 'top.x_'], ['top.a.y_', 'q_'], ['zz', 'top.ab.v<1>_']])
+                            group = gl[-1]
                             p = group.rfind('.')
-                            scope = group[:p + 1]
-                            text_open += f'(in-groups (list "{group}") '
+                            scope = group[:p + 1] if p != -1 else scope
+                            text_open += '(in-groups (list ' + ' '.join(f'"{x}"' for x in gl) + ') '
                         closes += ')'
                     return text_open, closes, scope, group
                 d1 = r.randint(1, 3)
